@@ -96,18 +96,25 @@ Theorem C02_received_total_except_limit : forall routes dc cur crt na exp,
   exists r, cl_received_current routes dc cur crt na exp = Some r.
 Proof. exact received_total_except_limit. Qed.
 
-(** ** Finding F04c (known): key-roll activation re-issues the ROAs without looking at the new certificate. *)
-Theorem C02_activate_roas_refuted : ~ activate_roas_full.
-Proof. exact activate_roas_refuted. Qed.
+(** ** Key-roll activation (finding F04c, repaired in the tree by 0ff85b31) *)
 
-Theorem C02_activate_roas_except_smaller : forall dc exp dc' n cur,
-  d_keys dc = KRollNew n cur -> subset (c_res (k_cert cur)) (c_res (k_cert n)) = true ->
-  roas_within dc -> cl_activate dc exp = Some (Some dc') -> roas_within dc'.
-Proof. exact activate_roas_except_smaller. Qed.
+(** After activation no ROA and no child certificate lies outside the certificate of the new current key,
+    whatever the certificates of the two keys were. *)
+Theorem C02_activate_roas_within : forall dc exp dc' rm, cl_activate dc exp = Some (Some (dc', rm)) -> roas_within dc'.
+Proof. exact activate_roas_within. Qed.
 
-(** child certificates on the other hand never survive activation outside the new certificate *)
-Theorem C02_activate_contained : forall dc exp dc', cl_activate dc exp = Some (Some dc') -> contained dc'.
+Theorem C02_activate_contained : forall dc exp dc' rm, cl_activate dc exp = Some (Some (dc', rm)) -> contained dc'.
 Proof. exact cl_activate_contained. Qed.
+
+(** Regression witness: the originally pinned activation re-issued the ROAs without looking at the new
+    certificate (full statement about the pinned function, its refutation, the restriction that did hold). *)
+Theorem C02_activate_roas_refuted : ~ activate_roas_pinned_full.
+Proof. exact activate_roas_pinned_refuted. Qed.
+
+Theorem C02_activate_roas_pinned_except_smaller : forall dc exp dc' n cur,
+  d_keys dc = KRollNew n cur -> subset (c_res (k_cert cur)) (c_res (k_cert n)) = true ->
+  roas_within dc -> cl_activate_pinned dc exp = Some (Some dc') -> roas_within dc'.
+Proof. exact activate_roas_pinned_except_smaller. Qed.
 
 (** and a received certificate keeps the ROAs within it *)
 Theorem C02_received_roas_within : forall routes dc crt na exp dc' rm,
@@ -214,7 +221,8 @@ Print Assumptions C02_shrink_total_except_limit.
 Print Assumptions C02_received_total_refuted.
 Print Assumptions C02_received_total_except_limit.
 Print Assumptions C02_activate_roas_refuted.
-Print Assumptions C02_activate_roas_except_smaller.
+Print Assumptions C02_activate_roas_pinned_except_smaller.
+Print Assumptions C02_activate_roas_within.
 Print Assumptions C02_activate_contained.
 Print Assumptions C02_received_roas_within.
 Print Assumptions C02_sync_converges.
